@@ -43,7 +43,7 @@ type Case struct {
 	ID     int      `json:"id"`
 	Fn     string   `json:"fn"`
 	Args   []uint64 `json:"args"`
-	State  string   `json:"state"`  // bare | dir | hole | sock
+	State  string   `json:"state"`  // bare | dir | hole | sock | sockp (sock + a pending connection) | dirread (dir, both directory streams read to the end before)
 	Img    string   `json:"img"`    // zero | struct | ff | rand:<n>
 	Engine string   `json:"engine"` // interpreter | compiler
 	Tag    string   `json:"tag,omitempty"`
@@ -231,7 +231,9 @@ func (e *childEnv) exec(c Case) Result {
 	for _, kv := range hostEnv {
 		cfg = cfg.WithEnv(kv[0], kv[1])
 	}
-	if (c.State == "dir" || c.State == "hole") {
+	isSock := c.State == "sock" || c.State == "sockp"
+	isDirState := c.State == "dir" || c.State == "hole" || c.State == "dirread"
+	if isDirState {
 		if e.dirty {
 			e.rebuildDir()
 		}
@@ -239,14 +241,14 @@ func (e *childEnv) exec(c Case) Result {
 		cfg = cfg.WithFSConfig(wazero.NewFSConfig().WithDirMount(e.dir, preopenName))
 	}
 	ictx := e.ctx
-	if c.State == "sock" {
+	if isSock {
 		ictx = sock.WithConfig(ictx, sock.NewConfig().WithTCPListener("127.0.0.1", 0))
 	}
 	mod, err := rt.InstantiateModule(ictx, cm, cfg)
 	must(err)
 	defer mod.Close(e.ctx)
 	fsc := mod.(*wasm.ModuleInstance).Sys.FS()
-	if c.State == "sock" {
+	if isSock {
 		// table {0,1,2, 3 = pre-opened TCP listener (non-blocking), 4 = an accepted connection whose peer has sent
 		// 19 bytes and closed its sending side (reads end with EOF instead of blocking)}
 		l, ok := fsc.LookupFile(3)
@@ -270,8 +272,14 @@ func (e *childEnv) exec(c Case) Result {
 		if _, ferr := mod.ExportedFunction("c_fd_fdstat_set_flags").Call(e.ctx, 3, 4); ferr != nil {
 			must(ferr)
 		}
+		if c.State == "sockp" {
+			// a second peer has connected and is waiting in the accept queue
+			peer2, derr := net.DialTimeout("tcp", a.Addr().String(), 5*time.Second)
+			must(derr)
+			defer peer2.Close()
+		}
 	}
-	if (c.State == "dir" || c.State == "hole") {
+	if isDirState {
 		pre, ok := fsc.LookupFile(3)
 		if !ok {
 			must(fmt.Errorf("no preopen"))
@@ -287,6 +295,15 @@ func (e *childEnv) exec(c Case) Result {
 			open("f.txt", expsys.O_RDONLY) // fd 6
 			fsc.CloseFile(5)               // table {0,1,2,3,4,6}
 		}
+		if c.State == "dirread" {
+			for _, fd := range []uint64{3, 5} {
+				out, rerr := mod.ExportedFunction("c_fd_readdir").Call(e.ctx, fd, 8192, 4096, 0, 16384)
+				must(rerr)
+				if out[0] != 0 {
+					must(fmt.Errorf("setup fd_readdir(%d): errno %d", fd, out[0]))
+				}
+			}
+		}
 	}
 	mem := mod.Memory()
 	img := buildImage(c.Img, int(mem.Size()))
@@ -294,7 +311,7 @@ func (e *childEnv) exec(c Case) Result {
 		must(fmt.Errorf("image write"))
 	}
 	res := Result{ID: c.ID, Errno: -1, MemSize: mem.Size()}
-	if c.State == "dir" || c.State == "hole" {
+	if isDirState {
 		res.DirOrder = listOrder(e.dir) + " " + listOrder(filepath.Join(e.dir, "d"))
 	}
 	res.Before, _, _, _ = tableDump(fsc)
